@@ -5,182 +5,6 @@ use crate::matcher::acquisition_ledger::AcquisitionLot;
 use crate::models::*;
 use crate::matcher::MatchResult;
 
-// ---------- generic real-valued sums over sequences ----------
-pub open spec fn rsum<T>(s: Seq<T>, f: spec_fn(T) -> real) -> real
-    decreases s.len()
-{
-    if s.len() == 0 { 0real } else { rsum(s.drop_last(), f) + f(s.last()) }
-}
-
-pub proof fn rsum_empty<T>(f: spec_fn(T) -> real)
-    ensures rsum(Seq::<T>::empty(), f) == 0real
-{}
-
-pub proof fn rsum_push<T>(s: Seq<T>, x: T, f: spec_fn(T) -> real)
-    ensures rsum(s.push(x), f) == rsum(s, f) + f(x)
-{
-    assert(s.push(x).drop_last() =~= s);
-}
-
-pub proof fn rsum_take_step<T>(s: Seq<T>, i: int, f: spec_fn(T) -> real)
-    requires 0 <= i < s.len()
-    ensures rsum(s.take(i + 1), f) == rsum(s.take(i), f) + f(s[i])
-{
-    assert(s.take(i + 1).drop_last() =~= s.take(i));
-    assert(s.take(i + 1).last() == s[i]);
-}
-
-pub proof fn rsum_take_all<T>(s: Seq<T>, f: spec_fn(T) -> real)
-    ensures rsum(s.take(s.len() as int), f) == rsum(s, f), rsum(s.take(0), f) == 0real
-{
-    assert(s.take(s.len() as int) =~= s);
-    assert(s.take(0) =~= Seq::<T>::empty());
-}
-
-/// two sequences that agree pointwise under f have the same sum
-pub proof fn rsum_ext<T>(a: Seq<T>, b: Seq<T>, f: spec_fn(T) -> real, g: spec_fn(T) -> real)
-    requires a.len() == b.len(), forall|i: int| 0 <= i < a.len() ==> f(#[trigger] a[i]) == g(b[i])
-    ensures rsum(a, f) == rsum(b, g)
-    decreases a.len()
-{
-    if a.len() > 0 {
-        rsum_ext(a.drop_last(), b.drop_last(), f, g);
-    }
-}
-
-/// sum of (f + c*g) = sum f + c * sum g
-pub proof fn rsum_linear<T>(s: Seq<T>, f: spec_fn(T) -> real, g: spec_fn(T) -> real, h: spec_fn(T) -> real, c: real)
-    requires forall|i: int| 0 <= i < s.len() ==> h(#[trigger] s[i]) == f(s[i]) + c * g(s[i])
-    ensures rsum(s, h) == rsum(s, f) + c * rsum(s, g)
-    decreases s.len()
-{
-    if s.len() > 0 {
-        rsum_linear(s.drop_last(), f, g, h, c);
-        let a = rsum(s.drop_last(), g); let b = g(s.last());
-        assert(c * (a + b) == c * a + c * b) by(nonlinear_arith);
-    } else {
-        assert(c * 0real == 0real) by(nonlinear_arith);
-    }
-}
-
-pub proof fn rsum_nonneg<T>(s: Seq<T>, f: spec_fn(T) -> real)
-    requires forall|i: int| 0 <= i < s.len() ==> f(#[trigger] s[i]) >= 0real
-    ensures rsum(s, f) >= 0real
-    decreases s.len()
-{
-    if s.len() > 0 { rsum_nonneg(s.drop_last(), f); }
-}
-
-/// one term of a non-negative sum is bounded by the sum
-pub proof fn rsum_term_le<T>(s: Seq<T>, f: spec_fn(T) -> real, k: int)
-    requires forall|i: int| 0 <= i < s.len() ==> f(#[trigger] s[i]) >= 0real, 0 <= k < s.len()
-    ensures f(s[k]) <= rsum(s, f)
-    decreases s.len()
-{
-    if k == s.len() - 1 { rsum_nonneg(s.drop_last(), f); }
-    else { rsum_term_le(s.drop_last(), f, k); }
-}
-
-
-pub proof fn rsum_split<T>(s: Seq<T>, i: int, f: spec_fn(T) -> real)
-    requires 0 <= i <= s.len()
-    ensures rsum(s, f) == rsum(s.take(i), f) + rsum(s.skip(i), f)
-    decreases s.len() - i
-{
-    if i == s.len() {
-        assert(s.take(i) =~= s); assert(s.skip(i) =~= Seq::<T>::empty());
-    } else {
-        rsum_split(s, i + 1, f);
-        rsum_take_step(s, i, f);
-        rsum_skip_step(s, i, f);
-    }
-}
-pub proof fn rsum_skip_step<T>(s: Seq<T>, i: int, f: spec_fn(T) -> real)
-    requires 0 <= i < s.len()
-    ensures rsum(s.skip(i), f) == f(s[i]) + rsum(s.skip(i + 1), f)
-    decreases s.len() - i
-{
-    let a = s.skip(i);
-    if i == s.len() - 1 {
-        assert(a.drop_last() =~= Seq::<T>::empty());
-        assert(s.skip(i + 1) =~= Seq::<T>::empty());
-        assert(a.last() == s[i]);
-    } else {
-        // a = [s[i]] ++ s.skip(i+1); peel the last element of both
-        let b = s.skip(i + 1);
-        assert(a.drop_last() =~= s.drop_last().skip(i));
-        assert(b.drop_last() =~= s.drop_last().skip(i + 1));
-        assert(a.last() == s.last()); assert(b.last() == s.last());
-        rsum_skip_step(s.drop_last(), i, f);
-        assert(s.drop_last()[i] == s[i]);
-    }
-}
-pub proof fn rsum_scale<T>(s: Seq<T>, f: spec_fn(T) -> real, g: spec_fn(T) -> real, c: real)
-    requires forall|i: int| 0 <= i < s.len() ==> g(#[trigger] s[i]) == c * f(s[i])
-    ensures rsum(s, g) == c * rsum(s, f)
-    decreases s.len()
-{
-    if s.len() > 0 {
-        rsum_scale(s.drop_last(), f, g, c);
-        let a = rsum(s.drop_last(), f); let b = f(s.last());
-        assert(c * (a + b) == c * a + c * b) by(nonlinear_arith);
-    } else {
-        assert(c * 0real == 0real) by(nonlinear_arith);
-    }
-}
-pub proof fn rsum_add<T>(s: Seq<T>, f: spec_fn(T) -> real, g: spec_fn(T) -> real, h: spec_fn(T) -> real)
-    requires forall|i: int| 0 <= i < s.len() ==> h(#[trigger] s[i]) == f(s[i]) + g(s[i])
-    ensures rsum(s, h) == rsum(s, f) + rsum(s, g)
-    decreases s.len()
-{
-    if s.len() > 0 { rsum_add(s.drop_last(), f, g, h); }
-}
-/// pointwise relation between two sequences: sum(b, g) = sum(a, f) + sum(a, delta)
-pub proof fn rsum_ext_add<T>(a: Seq<T>, b: Seq<T>, f: spec_fn(T) -> real, g: spec_fn(T) -> real, dl: spec_fn(T) -> real)
-    requires a.len() == b.len(), forall|i: int| 0 <= i < a.len() ==> g(b[i]) == f(#[trigger] a[i]) + dl(a[i])
-    ensures rsum(b, g) == rsum(a, f) + rsum(a, dl)
-    decreases a.len()
-{
-    if a.len() > 0 { rsum_ext_add(a.drop_last(), b.drop_last(), f, g, dl); }
-}
-
-
-pub proof fn rsum_concat<T>(a: Seq<T>, b: Seq<T>, f: spec_fn(T) -> real)
-    ensures rsum(a + b, f) == rsum(a, f) + rsum(b, f)
-    decreases b.len()
-{
-    if b.len() == 0 { assert(a + b =~= a); }
-    else {
-        assert((a + b).drop_last() =~= a + b.drop_last());
-        assert((a + b).last() == b.last());
-        rsum_concat(a, b.drop_last(), f);
-    }
-}
-pub proof fn rsum_one<T>(x: T, f: spec_fn(T) -> real)
-    ensures rsum(seq![x], f) == f(x)
-{
-    assert(seq![x].drop_last() =~= Seq::<T>::empty());
-    assert(seq![x].last() == x);
-    assert(rsum(seq![x].drop_last(), f) == 0real);
-}
-pub proof fn lemma_wavg_nonneg(a1: real, p1: real, a2: real, p2: real)
-    requires a1 > 0real, a2 > 0real, p1 >= 0real, p2 >= 0real
-    ensures (a1 * p1 + a2 * p2) / (a1 + a2) >= 0real, a1 + a2 > 0real
-{
-    assert(a1 * p1 >= 0real) by(nonlinear_arith) requires a1 > 0real, p1 >= 0real;
-    assert(a2 * p2 >= 0real) by(nonlinear_arith) requires a2 > 0real, p2 >= 0real;
-    let n = a1 * p1 + a2 * p2; let dd = a1 + a2;
-    assert(n / dd >= 0real) by(nonlinear_arith) requires n >= 0real, dd > 0real;
-}
-pub proof fn lemma_share_bounds(a: real, q: real, t: real)
-    requires a >= 0real, 0real < q <= t
-    ensures 0real <= a * (q / t) <= a
-{
-    assert(0real < q / t <= 1real) by(nonlinear_arith) requires 0real < q <= t;
-    let r = q / t;
-    assert(0real <= a * r <= a) by(nonlinear_arith) requires a >= 0real, 0real < r <= 1real;
-}
-
 // ---------- acquisition lots ----------
 pub open spec fn lot_avail(l: AcquisitionLot) -> real { l.original_amount.v() - l.consumed.v() - l.reserved.v() - l.in_pool.v() }
 pub open spec fn lot_held(l: AcquisitionLot) -> real { l.original_amount.v() - l.consumed.v() }
